@@ -4,12 +4,21 @@ import KyupyVerif.Proofs.MemRef
 import KyupyVerif.Model.MapCert
 import KyupyVerif.Proofs.MapSound
 import KyupyVerif.Proofs.MemMapAccept
+import KyupyVerif.Proofs.MemMapFrees
 import KyupyVerif.Gen.Tables
 /-! # C08 — signal-memory map and allocator never let live data overlap
 
-**Allocator** (all alloc/free histories — theorems): `Heap` is an address-ordered list model of `sim.Heap`
+**Allocator** (all alloc/free histories INSIDE THE DOMAIN — theorems): `Heap` is an address-ordered list model of `sim.Heap`
 (start of a chunk = sum of the sizes before it; tied to the code by exact correspondence of the whole state after
-every operation). **Map** (circuits × capacity vectors × options): `MapIn.check` is a certificate checker that is
+every operation). **Domain (audit follow-up):** positive requests and releases of the START OF A LIVE CHUNK only (`histOkB`:
+each operation is checked in the state it is applied to). The real `Heap.free(loc)` does not check this: `Heap.free(0)` twice
+raises nothing and corrupts the tables (API misuse, /tmp/audit/v_heap.py) — the model's `free` returns `none` there and the
+history runner `runOp` totalises it as a no-op, which says nothing about the code. `allocator_invariant` is therefore stated under
+`histOkB` and adds that nothing was totalised (`runStrict` succeeds with the same state); `allocator_invariant_totalised` is the
+older model-only statement. `memMap_frees_live`: the scheduler model never leaves the domain — every release `memMap` performs
+(per level, with `c_reuse`) is of a non-negative location that is the start of a live chunk at that moment and succeeds, so the
+"failing release changes nothing" branch of `freeAll` and `(-1).toNat = 0` are never reached. `hist_hwm`: after a whole history
+the reported maximum is the running maximum of the managed size. The real-heap harness keeps releases inside the domain. **Map** (circuits × capacity vectors × options): `MapIn.check` is a certificate checker that is
 evaluated on the REAL `ops`, `level_starts`, `c_locs`, `c_caps`, `c_len` of every generated instance, and it is
 SOUND (`map_certificate_sound`, `map_certificate_sound_logic`): whenever it accepts, running the real op rows on memory
 — operands read through `c_locs/c_caps` of the operand index, results written to the region of the output index, in
@@ -33,11 +42,35 @@ are evaluated by the driver on the real circuit and the real topological order (
 namespace KV.C08
 open KV KV.Heap
 
-/-- the invariant holds after **every** history of allocations (positive sizes) and releases from the empty heap:
-    sizes positive, adjacent free regions coalesced (no two adjacent free chunks, no trailing free chunk),
-    reported maximum ≥ current size -/
-theorem allocator_invariant (ops : List HOp) (hok : ∀ op ∈ ops, OpOk op) :
+/-- the invariant holds after **every** history from the empty heap that stays inside the domain (`histOkB`: allocations of
+    positive sizes, releases of the start of a chunk that is LIVE at that moment): sizes positive, adjacent free regions
+    coalesced (no two adjacent free chunks, no trailing free chunk), reported maximum ≥ current size; and no release of the
+    history failed (`runStrict`, which totalises nothing, succeeds with the same state) -/
+theorem allocator_invariant (ops : List HOp) (hok : histOkB { cs := [], maxSz := 0 } ops = true) :
+    HInv (ops.foldl runOp { cs := [], maxSz := 0 }) ∧
+    runStrict { cs := [], maxSz := 0 } ops = some (ops.foldl runOp { cs := [], maxSz := 0 }) :=
+  hist_strict ops _ empty_inv hok
+
+/-- a history inside the domain (the third allocation re-uses the released first chunk) and the auditor's misuse history
+    (second release of address 0: no live chunk starts there any more) outside it -/
+example : histOkB { cs := [], maxSz := 0 } [.alloc 4, .alloc 4, .free 0, .alloc 4, .free 4, .free 0] = true ∧
+    histOkB { cs := [], maxSz := 0 } [.alloc 4, .alloc 4, .alloc 4, .free 0, .free 0] = false := by decide
+
+/-- model-only form (older statement): with failing releases TOTALISED as no-ops the invariant holds after every history of
+    positive allocations and arbitrary releases. Says nothing about the real `Heap` outside the domain of `allocator_invariant`
+    (a release of a dead address corrupts the real tables). -/
+theorem allocator_invariant_totalised (ops : List HOp) (hok : ∀ op ∈ ops, OpOk op) :
     HInv (ops.foldl runOp { cs := [], maxSz := 0 }) := hist_inv ops hok
+
+/-- **high-water mark of whole histories**: inside the domain, the reported maximum after the history is the running maximum
+    of the managed size over all intermediate states (`peak`) -/
+theorem hist_hwm (ops : List HOp) (hok : histOkB { cs := [], maxSz := 0 } ops = true) :
+    (ops.foldl runOp { cs := [], maxSz := 0 }).maxSz = peak { cs := [], maxSz := 0 } 0 ops :=
+  hist_hwm_gen ops (hist_ok_old ops _ hok) _ empty_inv
+
+example : peak { cs := [], maxSz := 0 } 0 [.alloc 4, .alloc 4, .free 4, .alloc 2, .free 0] = 8 ∧
+    ([HOp.alloc 4, .alloc 4, .free 4, .alloc 2, .free 0].foldl runOp { cs := [], maxSz := 0 }).maxSz = 8 ∧
+    total ([HOp.alloc 4, .alloc 4, .free 4, .alloc 2, .free 0].foldl runOp { cs := [], maxSz := 0 }).cs = 6 := by decide
 
 /-- an allocation never returns a region overlapping a live one; the region becomes live, nothing else changes,
     and it lies inside the managed range -/
@@ -56,6 +89,7 @@ theorem free_releases_exactly (h h' : Heap) (loc : Nat) (hi : HInv h) (hf : h.fr
 theorem free_removes_exactly (h h' : Heap) (loc : Nat) (hi : HInv h) (hf : h.free loc = some h') :
     ∀ r, r ∈ h'.used ↔ r ∈ h.used ∧ r.1 ≠ loc := free_used_iff h h' loc hi hf
 
+/-- in the model a release fails (`none`) only when no live region starts at the address — i.e. only outside the domain -/
 theorem free_fails_only_on_dead (h : Heap) (hi : HInv h) (loc : Nat) (hf : h.free loc = none) : ∀ r ∈ h.used, r.1 ≠ loc :=
   free_none_iff h hi loc hf
 
@@ -198,6 +232,18 @@ theorem simops_program_facts (tbl : List PrefixRow) (net : Net) (order : List Na
     ProgOK (simopsMap tbl net order strip capsIn capsMin reuse) :=
   simops_progOK tbl (simopsMap tbl net order strip capsIn capsMin reuse) order hwf ho hf hr rfl rfl
 
+/-- **`SimOps` stays inside the allocator's domain**: for every well-formed netlist, topological order, `strip_forks` /
+    `c_reuse` setting, capacity vector and `c_caps_min > 0`, every release the model `memMap` performs — at the end of every
+    level, in the order `freeAll` performs them — is the release of a non-negative location that is the start of a chunk live
+    at that moment, and it succeeds (`memMapFreesLiveB`, Proofs/MemMapFrees.lean: the Boolean conjunction of exactly these
+    three facts over all releases). -/
+theorem memMap_frees_live (tbl : List PrefixRow) (net : Net) (order : List Nat) (strip : Bool) (capsIn : Nat → Nat)
+    (capsMin : Nat) (reuse : Bool) (hwf : net.wfB = true) (ho : orderOKB net order = true)
+    (hf : strip = true → forksOKB net order = true) (hr : readsDrivenB tbl net order = true) (hpos : 0 < capsMin) :
+    memMapFreesLiveB net (genOps tbl net order strip) (stemsOf net strip)
+      (levelise net.idx.len (stemsOf net strip) (genOps tbl net order strip)) capsIn capsMin reuse = true :=
+  simops_frees_live tbl net order strip capsIn capsMin reuse hwf ho hf hr hpos
+
 /-- **memory-level execution = signal-level execution for the map `SimOps` builds — no per-instance certificate**:
     `map_certificate_sound` with the hypothesis `p.check = none` discharged by `simops_map_accepted` -/
 theorem simops_memory_sound {α C : Type} (tbl : List PrefixRow) (net : Net) (order : List Nat) (strip : Bool)
@@ -257,6 +303,13 @@ example (strip reuse : Bool) (capsIn : Nat → Nat) :
     (simopsMap Gen.kindPrefixes demoNet demoOrder strip capsIn 4 reuse).check = none :=
   simops_map_accepted Gen.kindPrefixes demoNet demoOrder strip capsIn 4 reuse demo_hyps.1 demo_hyps.2.1
     (fun _ => demo_hyps.2.2.1) demo_hyps.2.2.2 (by decide)
+
+/-- `memMap_frees_live` applies to `demoNet` (every setting); with `c_reuse` releases really happen there: the heap of the
+    model ends smaller than without reuse -/
+example (strip reuse : Bool) (capsIn : Nat → Nat) := memMap_frees_live Gen.kindPrefixes demoNet demoOrder strip capsIn 4 reuse
+  demo_hyps.1 demo_hyps.2.1 (fun _ => demo_hyps.2.2.1) demo_hyps.2.2.2 (by decide)
+example : (simopsMap Gen.kindPrefixes demoNet demoOrder false (fun _ => 1) 1 true).cLen <
+    (simopsMap Gen.kindPrefixes demoNet demoOrder false (fun _ => 1) 1 false).cLen := by decide +kernel
 
 /-- the hypothesis `readsDrivenB` cannot be dropped: a cell of unknown kind writes nothing (`SimOps` prints
     "unknown cell type" and goes on), the output port captures a line that never gets memory (`c_locs = -1`, the same in the
